@@ -185,6 +185,9 @@ struct SourceCtl
    uint32_t curOp = 0;
    unsigned callsInGet = 0, zeroCapInGet = 0;
    unsigned maxCalls = 0;
+   // evidence only (never judged): where inside the internal buffer the source is asked to write
+   const unsigned char* base = nullptr;
+   size_t lastEnd = 0;
 };
 
 template <size_t N, typename P> class Reader : public celma::common::ReadBuffer<N, P>
@@ -221,6 +224,16 @@ private:
             break;
          }
          default: k = 1 + (size_t)c.rng.below(len); break;
+         }
+         {
+            // which refill branch was taken (the first call always writes at the start of the buffer)
+            if (!c.base) c.base = data;
+            const size_t offs = (size_t)(data - c.base);
+            const uint64_t have = c.delivered - c.consumed;
+            if (have == 0) fs.add("read.refill_into_empty_buffer");
+            else if (offs < c.lastEnd) fs.add("read.refill_after_compaction");
+            else fs.add("read.refill_behind_data");
+            c.lastEnd = offs + k;
          }
          for (size_t i = 0; i < k; ++i) data[i] = pat(c.delivered + i);   // ASan: [data, data+k) must be inside the buffer
          c.delivered += k;
